@@ -273,6 +273,60 @@ def numeric_or_default(ctx, rid, rels, what, funcs=None):
     return n
 
 
+def frame_index_truthiness(ctx, rid, rels, what=""):
+    """The frame index of a configuration reference `(file, idx)` may be 0: it is tested
+    with `is None` / comparisons, never by truthiness (`if idx:`, `not idx`, `idx or d`).
+
+    Candidates: names unpacked at position 1 from a `<x>.config` / `config` value,
+    `<x>.config[1]` subscripts, and parameters named idx/index or annotated with int
+    and defaulting to None."""
+    def is_config(e):
+        return (isinstance(e, ast.Attribute) and e.attr == "config") or (isinstance(e, ast.Name) and e.id == "config")
+
+    for m, q, f in ctx.tree.all_funcs(rels):
+        cands = set()
+        args = f.args.posonlyargs + f.args.args + f.args.kwonlyargs
+        defaults = [None] * (len(f.args.posonlyargs + f.args.args) - len(f.args.defaults)) + list(f.args.defaults) + list(f.args.kw_defaults)
+        for a, d in zip(args, defaults):
+            ann = ast.unparse(a.annotation) if a.annotation is not None else ""
+            if a.arg in ("idx", "index", "frame_idx") or ("int" in ann.replace("interfaces", "") and isinstance(d, ast.Constant) and d.value is None):
+                cands.add(a.arg)
+        for n in walk_local(f):
+            if isinstance(n, ast.Assign) and isinstance(n.targets[0], ast.Tuple) and len(n.targets[0].elts) == 2 and is_config(n.value):
+                t1 = n.targets[0].elts[1]
+                if isinstance(t1, ast.Name) and t1.id != "_":
+                    cands.add(t1.id)
+        if not cands:
+            continue
+
+        def is_cand(t):
+            if isinstance(t, ast.Name) and t.id in cands:
+                return t.id
+            if isinstance(t, ast.Subscript) and is_config(t.value) and isinstance(t.slice, ast.Constant) and t.slice.value == 1:
+                return ast.unparse(t)
+            return None
+
+        hit = set()
+        for x in walk_local(f):
+            tests = []
+            if isinstance(x, ast.BoolOp):
+                if isinstance(x.op, ast.Or) and len(x.values) == 2 and isinstance(x.values[1], ast.Constant) and x.values[1].value == 0 and x.values[1].value is not False:
+                    continue  # `idx or 0`: index 0 stays 0
+                tests += x.values
+            if isinstance(x, (ast.If, ast.While, ast.IfExp)):
+                tests.append(x.test)
+            if isinstance(x, ast.UnaryOp) and isinstance(x.op, ast.Not):
+                tests.append(x.operand)
+            for t in tests:
+                nm = is_cand(t)
+                if nm and nm not in hit:
+                    hit.add(nm)
+                    ctx.bad(rid, x, f"{q}: the frame index `{nm}` is tested by truthiness: index 0 (the first frame of a trajectory file) is treated like 'no index'{what}",
+                            construct=f"truthiness of frame index {nm} in {short(x, 50)}")
+        for nm in sorted(cands - hit):
+            ctx.ok(rid, f, f"{q}: frame index `{nm}` is never tested by truthiness")
+
+
 # --------------------------------------------------------------------------
 # positional role agreement (argument-selection / unpack-permutation defects)
 # --------------------------------------------------------------------------
@@ -443,3 +497,105 @@ def stale_loop_variable(ctx, rid, rels, func_filter=None, what=""):
         for L in loops:
             if id(L) not in flagged_loops:
                 ctx.ok(rid, L, f"{q}: variables of `for {short(L.target, 30)}` are not read after the loop", nontrivial=False)
+
+
+class RuleProxy:
+    """Report another property's rule under this property's rule id."""
+
+    def __init__(self, c, rid, suffix=""):
+        self._c = c
+        self._rid = rid
+        self._suffix = suffix
+        self.tree = c.tree
+        self.tier = getattr(c, "tier", "quick")
+
+    def rule(self, *a, **k):
+        pass
+
+    def ok(self, rid, node, what, nontrivial=True):
+        self._c.ok(self._rid, node, what, nontrivial)
+
+    def bad(self, rid, node, message, **kw):
+        self._c.bad(self._rid, node, message + self._suffix, **kw)
+
+    def note(self, m):
+        self._c.note(m)
+
+    def attempt(self, fn, *args):
+        return self._c.attempt(fn, *args)
+
+
+# --------------------------------------------------------------------------
+# configuration keys are read under one section
+# --------------------------------------------------------------------------
+
+_CFG_ROOTS = {"config", "self.config", "state.config"}
+
+
+def _cfg_chain(e, env):
+    keys = []
+    while True:
+        if isinstance(e, ast.Subscript) and isinstance(e.slice, ast.Constant) and isinstance(e.slice.value, str):
+            keys.append(e.slice.value)
+            e = e.value
+        elif (isinstance(e, ast.Call) and isinstance(e.func, ast.Attribute) and e.func.attr in ("get", "setdefault", "pop") and e.args
+              and isinstance(e.args[0], ast.Constant) and isinstance(e.args[0].value, str)):
+            keys.append(e.args[0].value)
+            e = e.func.value
+        else:
+            break
+    keys.reverse()
+    try:
+        txt = ast.unparse(e)
+    except Exception:
+        return None
+    if txt in _CFG_ROOTS or txt.endswith(".config"):
+        return keys
+    if isinstance(e, ast.Name) and e.id in env:
+        return env[e.id] + keys
+    return None
+
+
+def config_section_agreement(ctx, rid, what=""):
+    """Every key of the run configuration is accessed under one section path in the whole
+    package (aliases such as `sim = self.config["simulation"]` resolved). A key that one
+    site looks up in another section than all other sites is silently absent there
+    (`.get(k, default)` returns the default)."""
+    import collections
+    sites = collections.defaultdict(list)
+    for m, q, f in ctx.tree.all_funcs():
+        if m.rel.startswith("infretis/tools"):
+            continue
+        env = {}
+        for n in walk_local(f):
+            if isinstance(n, ast.Assign) and len(n.targets) == 1 and isinstance(n.targets[0], ast.Name):
+                c = _cfg_chain(n.value, env)
+                if c:
+                    env[n.targets[0].id] = c
+        for n in walk_local(f):
+            if not isinstance(n, (ast.Subscript, ast.Call)):
+                continue
+            par = getattr(n, "_parent", None)
+            if isinstance(par, ast.Subscript) and par.value is n:
+                continue
+            if isinstance(par, ast.Attribute) and par.attr in ("get", "setdefault", "pop") and par.value is n:
+                continue
+            c = _cfg_chain(n, env)
+            if not c:
+                continue
+            for i in range(1, len(c) + 1):
+                sites[c[i - 1]].append((tuple(c[: i - 1]), n, q))
+    if len(sites) < 20:
+        from ..loader import AnalysisError
+        raise AnalysisError(f"{rid}: only {len(sites)} configuration keys found (expected >= 20)")
+    for k, v in sorted(sites.items()):
+        cnt = collections.Counter(p for p, _, _ in v)
+        if len(cnt) == 1:
+            ctx.ok(rid, v[0][1], f"key {k!r}: all {len(v)} accesses under {'/'.join(next(iter(cnt))) or '<root>'}", nontrivial=len(v) > 1)
+            continue
+        top = cnt.most_common()
+        major = top[0][0] if top[0][1] > top[1][1] else None
+        for p, node, q in v:
+            if p != major:
+                ctx.bad(rid, node, f"{q}: the configuration key {k!r} is looked up under [{'.'.join(p) or '<root>'}] here but under [{'.'.join(major) if major else ' / '.join('.'.join(x) for x in cnt)}] elsewhere in the package: at one of the places the key is silently absent (a `.get` returns its default){what}",
+                        construct=f"config key {k} under {'.'.join(p) or '<root>'}")
